@@ -128,3 +128,31 @@ def cookie_cases(canary_mod):
             src = ('#!/x\n' if line == 2 else '') + '# -*- coding: %s -*-\nx = "abc"\n' % c
             out.append({'shape': 'cookie', 'src_b64': __import__('base64').b64encode(src.encode('latin-1')).decode('ascii')})
     return out
+
+
+RANDOM_FRAGMENTS = ["'", '"', "'" * 3, '"' * 3, '\\', '\n', '\r', '\t', '{', '}', '{{', '}}', '\x00', '\udc80', '\ud800', '\xe9', ' ', '#', '+', ';', ')', '(',
+                    ',', ' ', 'b', 'f', 'r', 'u', '\\N{DIGIT ONE}', '\x7f', '%s', ':', '!r', '=', 'x', '0']
+
+
+def random_cases(seed, canary_path, canary_mod, n, per_payload=2):
+    """random compositions of the fragments the quoting code has to cope with, each placed in a few random literal positions"""
+    call = "__import__('os').system('touch %s')" % canary_path
+    imp = '__import__("%s")' % canary_mod
+    frags = RANDOM_FRAGMENTS + [call, imp]
+    out = []
+    for i in range(n):
+        r = common.rng(seed, 'strgen-random', i)
+        p = ''.join(r.choice(frags) for _ in range(r.randrange(1, 9)))
+        pos = positions(p)
+        r.shuffle(pos)
+        k = 0
+        for tag, src in pos:
+            try:
+                compile(src, 's', 'exec')
+            except Exception:
+                continue
+            out.append({'shape': 'random_payload.' + tag, 'payload': 'r%d' % i, 'src': src})
+            k += 1
+            if k >= per_payload:
+                break
+    return out
